@@ -26,14 +26,14 @@ claimed={
 notes={
  "C01":"orchestrator step over model handlers, plus a fault-free whole-stack glue run with the real std handlers over the memcached model (thorough: wire-level pipelines of C08); bounds: 2 keys, values <= 2 bytes, gets <= 2 keys, clock frozen within a command",
  "C02":"as C01; eviction invisibility follows from the pre-state ranging over every L1 subset of L2",
- "C03":"2 connections x 1 command; 1 key / 1 stripe (quick), 2 keys / 2 stripes (thorough); more connections and longer programs outside the bound; app/memproxy.go wiring of the constructors is not executed (the constructors it calls are)",
+ "C03":"2 connections x 1 command; 1 key / 1 stripe (quick), 2 keys / 2 stripes with the first command in {set,delete,gat,get} and a 2-key get against a set (thorough); a get of n keys is linearized as n per-key reads; more connections and longer programs outside the bound; app/memproxy.go wiring of the constructors is not executed (the constructors it calls are)",
  "C04":"key lengths 5 (quick), 1 and 250 (thorough); value lengths {0,1,2,p-1,p,p+1,2p,2p+1} (+3p thorough); long values symbolic at the chunk borders only; one known finding (surplus chunks of an overwritten longer value survive delete)",
  "C05":"1..3 chunks quick, 1..6 thorough; interleaved concurrent writers are not part of the check yet",
  "C06":"pool of 1 connection, batch sizes 1-2, <= 2 callers, one legal schedule per path (caller interleavings not explored exhaustively); pool growth (monitor) and the dial are not executed",
  "C07":"lengths concrete per run (listed in evidence), contents symbolic; > 2 requests per pipeline and > 1 cut (quick) outside the bound",
  "C08":"model handlers stand for the backends; pipelines of 2; 2 keys; values <= 2 bytes; text flags <= 9 in quick; stats excluded",
  "C09":"orchestrator level with model handlers, plus the real chunked handler over the memcached model (deadline of every backend entry and the metadata Exptime field); batched handler TTL (gete) not yet part of this check",
- "C10":"one known finding (set acknowledged when the L1 write and the compensating L1 delete both fail with an I/O error); one fault per run; 1 key, 2-byte values; std handlers (chunked handler faults and batching-pool faults not part of this check); promptness is 'no read that would wait for ever', not wall-clock",
+ "C10":"one known finding (set acknowledged when the L1 write and the compensating L1 delete both fail with an I/O error); one fault per run; whole stack with std handlers (1-2 keys, 2-byte values), a follow-up read on the same client connection, and the chunked handler alone (1-3 chunks); batching-pool faults belong to C13; promptness is 'no read that would wait for ever and no re-reading of a dead connection', not wall-clock",
  "C11":"consistent frames bounded to 23 body bytes, contradictory frames all covered; text lines of 6 (quick) / 9 (thorough) ASCII bytes",
  "C12":"sequential fault positions 0..1 (quick) / 0..3 (thorough); concurrent deadlock-freedom belongs to the schedule exploration of C03",
  "C14":"claimed in part: data-race freedom under the Go memory model over real schedules is NOT decided (no happens-before model); 2 connections; pools modelled adversarially (arbitrary contents after Put)",
